@@ -95,7 +95,13 @@ var c20MiscOpts = map[string][2]string{
 	"netdiscovery-off":  {"network.enablediscovery", "false"},
 	"tokenlifespan-120": {"auth.accesstokenlifespan", "120"},
 	"httplog-nothing":   {"http.log", "nothing"},
-	"httpcache-off":     {"http.cache.maxbytes", "0"},
+	"httpcache-off":     {"http.cache.maxbytes", "0"}, // gates the branch in http.Engine.configureClient next to the strict-mode wiring
+	"httpcache-neg":     {"http.cache.maxbytes", "-1"},
+	"httpcache-tiny":    {"http.cache.maxbytes", "1"},
+	"nodedid-set":       {"network.nodedid", "did:nuts:8fZvV3pUBp3ZJgAfUP8mQuVmxzXD6qnfiDEeNVHqDfKB"}, // branch in Network.Configure before the TLS refusal
+	"protocols-2":       {"network.protocols", "2"},
+	"auth-timeout-10":   {"auth.http.timeout", "10"}, // deprecated, gates a branch in Auth.Configure after the strict-mode wiring
+	"clockskew-0":       {"auth.clockskew", "0"},
 	"pki-hardfail":      {"pki.softfail", "false"},
 	"authz-endpoint-on": {"auth.authorizationendpoint.enabled", "true"},
 	"grpc-off":          {"network.grpcaddr", ""},
@@ -647,6 +653,21 @@ func (r *c20Recorder) RoundTrip(req *http.Request) (*http.Response, error) {
 	return nil, errC20NoNetwork
 }
 
+// c20Redirector answers every https request with 302 → http://plain.verif-remote.nl/p and every http request with 200.
+type c20Redirector struct{ rec c20Recorder }
+
+func (r *c20Redirector) RoundTrip(req *http.Request) (*http.Response, error) {
+	r.rec.mu.Lock()
+	r.rec.reqs = append(r.rec.reqs, req.URL.Scheme+"://"+req.URL.Host)
+	r.rec.mu.Unlock()
+	resp := &http.Response{StatusCode: 200, Status: "200 OK", Proto: "HTTP/1.1", ProtoMajor: 1, ProtoMinor: 1, Header: http.Header{}, Body: io.NopCloser(strings.NewReader("ok")), Request: req}
+	if req.URL.Scheme == "https" {
+		resp.StatusCode, resp.Status = 302, "302 Found"
+		resp.Header.Set("Location", "http://plain.verif-remote.nl/p")
+	}
+	return resp, nil
+}
+
 func (r *c20Recorder) take() []string {
 	r.mu.Lock()
 	defer r.mu.Unlock()
@@ -755,6 +776,28 @@ func c20Probe(x *h.Ctx, c c20Case, b c20Boot, strict bool) {
 			x.Violate("request-refused:"+mode+":"+sc, "%s node did not send the %s request (err=%v)", mode, sc, err)
 		}
 	}
+
+	// --- https endpoint answering with a redirect to http: a strict-mode node never ends up on the plain-http endpoint -----
+	redir := &c20Redirector{}
+	httpclient.DefaultCachingTransport = redir
+	for _, ctor := range []string{"NewWithCache"} {
+		req, _ := http.NewRequest(http.MethodGet, "https://redir.verif-remote.nl/r", nil)
+		_, err := httpclient.NewWithCache(time.Second).Do(req)
+		hits := redir.rec.take()
+		plain := 0
+		for _, hit := range hits {
+			if strings.HasPrefix(hit, "http://") {
+				plain++
+			}
+		}
+		if strict && plain > 0 {
+			x.Violate("strict-capability-present:http-after-redirect", "strict-mode node: client.%s followed a https→http redirect: %v (err=%v)", ctor, hits, err)
+		}
+		if len(hits) == 0 {
+			x.Violate("request-refused:"+mode+":https-redirecting", "%s node did not send the https request (err=%v)", mode, err)
+		}
+	}
+	httpclient.DefaultCachingTransport = rec
 
 	// --- IAM client built by the configured node: endpoints are public URLs (ParsePublicURL with the node's strictmode) -
 	iamClient := authEngine.IAMClient()
